@@ -77,6 +77,11 @@ func (f *FieldUpdater) Merge(dst, src proto.Message) {
 		writableMask = fmutils.NestedMaskFromPaths(fieldmaskpb.Union(f.writableFields, nil).GetPaths())
 	}
 
+	if writableMask != nil || f.updateMask != nil {
+		// the masks are applied to a copy: src belongs to the caller, who may have read it from another resource
+		src = proto.Clone(src)
+	}
+
 	// only allow writing writable fields by resetting non-writable fields in src
 	writableMask.Filter(src)
 
